@@ -130,6 +130,13 @@ FragsF == << [name |-> "F", on |-> "Q"] >>
 
 \* outcome tables
 OT_AllVal == << <<>> >>
+\* immediate failures at several depths (C18: error paths and locations)
+OT_Faults ==
+  << << [t |-> "O", f |-> "x", src |-> "*", o |-> [k |-> "err"]] >>,
+     << [t |-> "O", f |-> "x", src |-> "r.l#1", o |-> [k |-> "panics"]], [t |-> "Q", f |-> "f", src |-> "*", o |-> [k |-> "err"]] >>,
+     << [t |-> "I", f |-> "x", src |-> "*", o |-> [k |-> "err"]], [t |-> "A", f |-> "x", src |-> "*", o |-> [k |-> "err"]],
+        [t |-> "A", f |-> "p", src |-> "r.il#0", o |-> [k |-> "err"]], [t |-> "O", f |-> "z", src |-> "*", o |-> [k |-> "nil"]],
+        [t |-> "O", f |-> "x", src |-> "r.ll#0#1", o |-> [k |-> "err"]] >> >>
 OT_Abstract ==
   << <<>>,
      << [t |-> "Q", f |-> "i", src |-> "*", o |-> [k |-> "val", rt |-> "B"]],
